@@ -52,8 +52,26 @@ pub fn expect_equal(
     match oracle::compare(left, right) {
         Cmp::Equal => Outcome::Held,
         Cmp::Inconclusive(e) => {
-            st.inconclusive(&e);
-            Outcome::Inconclusive
+            // the exact oracle hit a size limit: fall back to differential probing with the real
+            // engine (test cases, prefixes, one-character substitutions / deletions / insertions)
+            match probe_compare(left, right, tcs) {
+                Some(None) => {
+                    st.count("decided_by_probes_after_oracle_limit");
+                    Outcome::Held
+                }
+                Some(Some((w, left_accepts))) => {
+                    let mut case = case_json(tcs, s);
+                    case["output"] = json!(out);
+                    case["witness"] = json!(w);
+                    case["extra"] = extra;
+                    st.violation(kind, format!("(probe) {} {:?} but reference {}", if left_accepts { "accepts" } else { "rejects" }, w, if left_accepts { "rejects it" } else { "accepts it" }), case);
+                    Outcome::Violated
+                }
+                None => {
+                    st.inconclusive(&e);
+                    Outcome::Inconclusive
+                }
+            }
         }
         Cmp::Invalid { left: is_left, err } => {
             let mut case = case_json(tcs, s);
@@ -121,4 +139,46 @@ pub fn expect_equal(
             }
         }
     }
+}
+
+/// Differential probing of two fully anchored patterns with `regex::Regex`: returns
+/// `Some(None)` when they agree on every probe, `Some(Some((probe, left_accepts)))` on a
+/// disagreement, `None` when a pattern cannot be compiled.
+pub fn probe_compare(left: &str, right: &str, tcs: &[String]) -> Option<Option<(String, bool)>> {
+    let l = oracle::real_regex(left).ok()?;
+    let r = oracle::real_regex(right).ok()?;
+    let mut probes: Vec<String> = vec![String::new()];
+    let subst = ['a', 'Z', '0', '9', ' ', '-', '_', '\u{e9}', '\u{661}', '\t', '.', '\\'];
+    for t in tcs.iter().take(40) {
+        probes.push(t.clone());
+        let cs: Vec<char> = t.chars().collect();
+        let step = (cs.len() / 40).max(1);
+        for i in (0..cs.len()).step_by(step) {
+            probes.push(cs[..i].iter().collect());
+            let mut d = cs.clone();
+            d.remove(i);
+            probes.push(d.iter().collect());
+            let mut e = cs.clone();
+            e.insert(i, cs[i]);
+            probes.push(e.iter().collect());
+            for c in subst {
+                let mut x = cs.clone();
+                x[i] = c;
+                probes.push(x.iter().collect());
+            }
+            // swap with an earlier character of the same test case
+            if i > 0 {
+                let mut x = cs.clone();
+                x[i] = cs[i / 2];
+                probes.push(x.iter().collect());
+            }
+        }
+    }
+    for p in probes {
+        let (a, b) = (l.is_match(&p), r.is_match(&p));
+        if a != b {
+            return Some(Some((p, a)));
+        }
+    }
+    Some(None)
 }
